@@ -37,6 +37,13 @@ def run(report, db, tier):
     r4(report, db, P)
     r5(report, db, P, cg, classes, versions)
     r6(report, db, P, cg)
+    r5b(report, db, P, cg, classes, versions)
+    from ..connmodel import ConnModel
+    from .. import shared
+    R7 = report.rule('R05.7', 'under the same version: write_packet imposes '
+                     'the connection\'s context on every packet it sends')
+    shared.context_imposed(report, R7, db, shared.summariser(db, cg),
+                           ConnModel(db, cg))
 
 
 # ---------------------------------------------------------------------------
@@ -733,6 +740,70 @@ def r5(report, db, P, cg, classes, versions):
         else:
             report.ok(R, '%s.fields: %d names' % (cv.ci.qualname,
                                                    len(names)))
+
+
+def r5b(report, db, P, cg, classes, versions):
+    """A field_string override that formats a field with a type-specific
+    formatter (nbt_to_snbt raises TypeError on anything but an NBT tag) must
+    take that branch exactly in versions where the definition gives the
+    field that type: otherwise repr() of a packet raises in the versions
+    between the two thresholds."""
+    R = report.rule('R05.5b', 'repr: a field is formatted as NBT only in '
+                    'versions where its declared type is NBT')
+    from .. import shared
+    from ..pathsum import struct
+    from ..fold import ClassVal, Instance
+    S = shared.summariser(db, cg, implicit_raises=False)
+    n = 0
+    for fi in db.funcs:
+        if fi.name != 'field_string' or fi.cls is None or \
+                not db.is_subclass(fi.cls, P.packet_ci) or \
+                fi.cls is P.packet_ci or len(fi.params) < 2:
+            continue
+        me, fld = ('sym', fi.params[0]), ('sym', fi.params[1])
+        # every registered class below the owner reaches this method, directly
+        # or through the super() call of its own override
+        users = [cv for cv in classes if db.is_subclass(cv.ci, fi.cls)]
+        for p in S.run(fi):
+            for e in p.flat(('call',)):
+                if not (e.fn[0] == 'fn' and e.fn[1].name == 'nbt_to_snbt'
+                        or e.fn[0] == 'attr' and e.fn[2] == 'nbt_to_snbt'):
+                    continue
+                arg = e.args[-1] if e.args else None
+                if arg is None or arg[0] != 'attr' or struct(arg[1]) != me:
+                    continue
+                name = arg[2]
+                holds = shared.path_versions(P, p)
+                for cv in users:
+                    for v in versions:
+                        if not registered(P, cv, v) or not holds(v):
+                            continue
+                        d = P.definition(cv, v)
+                        if not isinstance(d, list):
+                            continue
+                        n += 1
+                        ty = None
+                        for ent in d:
+                            if isinstance(ent, dict) and name in ent:
+                                ty = ent[name]
+                        tn = getattr(getattr(ty, 'ci', None), 'name', None)
+                        if ty is not None and tn != 'NBT':
+                            report.violation(
+                                R, 'repr:nbt:%s.%s' % (cv.ci.name, name),
+                                fi.path, e.node, fi.qualname, '%s formats '
+                                '%s with nbt_to_snbt under protocol %s, '
+                                'where %s declares it as %s: repr() of the '
+                                'packet raises TypeError' % (
+                                    fi.qualname, name, P.vname(v),
+                                    cv.ci.name, tn))
+                            break
+                    else:
+                        continue
+                    break
+    if not report.violations:
+        report.ok(R, 'NBT formatting agrees with the declared types (%d '
+                  'class x version x field instances)' % n)
+    report.floor('NBT-formatted field instances', n, 50)
 
 
 def fields_value(db, P, cv, ad, v):
